@@ -39,7 +39,7 @@ CLASS_NAMES = ["plain", "dquote", "backslash", "crlf", "nul", "brace", "blank", 
 WHOLE = ["", "{5}", "{5+}", "{0}", "{0+}", "LOGOUT", 'a" "b', 'x"\r\nLOGOUT\r\n"', "a\\", '\\"', "{3+}\r\nabc",
          "ACTIVE", "{99999999999}", " ", '"', "\\", "\r", "\n", "\r\n", "{", "a{1}", '""', "{1+}\r\n"]
 OPS = ["skip", "havespace", "getscript", "putscript", "deletescript", "setactive", "renamescript", "checkscript",
-       "putscript", "getscript"]
+       "putscript", "getscript", "capability", "listscripts", "logout"]
 
 
 def value(f, label, maxlen=12):
@@ -166,6 +166,8 @@ def run(ch, config, res):
                         args = (value(wl, "name"), value(wl, "content", 40))
                     elif meth == "checkscript":
                         args = (value(wl, "content", 40),)
+                    elif meth in ("capability", "listscripts", "logout"):
+                        args = ()
                     elif meth == "renamescript":
                         if version:
                             args = (value(wl, "name"), value(wl, "name2"))
@@ -179,7 +181,7 @@ def run(ch, config, res):
                     res.sigs.add("%s|%s" % (meth, ",".join(sorted(cl))))
                 res.count("calls")
                 failure = judge_call(world, srv, meth, args, o, emulated=emu)
-                if failure is not None or o.kind != "ret":
+                if failure is not None or o.kind != "ret" or meth == "logout":
                     break
     res.digest = world.digest()
     res.sim_time = world.clock.now
